@@ -127,6 +127,23 @@ def feedChunk (u : Upload) (payload : Bytes) : Upload :=
   | .error _ => { u with failed := true }
   | .ok (t, gs) => { u with trie := t, puts := u.puts ++ gs.map (groupChunk cref) }
 
+/-- one `ChainWrite(span, ref)` on the hash-trie writer itself with a caller-chosen leaf entry (the `leaves`
+    op of the file drivers: the leaf's data never reaches the writer, so nothing is stored for the leaf);
+    `feedChunk` is this after the leaf's own `Put`.  Spans are unbounded `Nat`s here; only `le64 span`
+    (= the 8 little-endian bytes of `span mod 2^64`, what Go's `uint64` sum holds) enters chunks and hashes. -/
+def feedEntry (u : Upload) (e : Entry) : Upload :=
+  if u.failed then u else
+  match chainWrite (wrapE cref) B u.trie e with
+  | .error _ => { u with failed := true }
+  | .ok (t, gs) => { u with trie := t, puts := u.puts ++ gs.map (groupChunk cref) }
+
+/-- `Sum()` of the hash-trie writer alone (no feeder flush): the root entry, or `none` on error -/
+def Upload.sumTrie (u : Upload) : Upload × Option Entry :=
+  if u.failed then (u, none) else
+  match trieSum (wrapE cref) B u.trie with
+  | .error _ => (u, none)
+  | .ok (e, gs) => ({ u with puts := u.puts ++ gs.map (groupChunk cref) }, some e)
+
 /-- `pipeline.Write(b)`; the second component is the returned count (`none` = error) -/
 def Upload.write (u : Upload) (b : Bytes) : Upload × Option Int :=
   let (f, chunks, n) := Aurora.Feeder.write C u.feeder b
